@@ -1146,7 +1146,8 @@ func (g *G) sub(i int) ast.Statement {
 	g.t("sub", "SubroutineDeclaration#0", true)
 	g.t(name, "SubroutineDeclaration#1", true)
 	functional := !strings.HasPrefix(name, "vcl_") && !g.O.Conservative && r.Intn(3) == 0
-	if functional && r.Intn(2) == 0 {
+	// parameters also on plain (non-functional) user subroutines
+	if (functional && r.Intn(2) == 0) || (!functional && !strings.HasPrefix(name, "vcl_") && !g.O.Conservative && r.Intn(4) == 0) {
 		g.f("sub-params")
 		g.t("(", "SubroutineDeclaration#popen", false)
 		for k, n := 0, r.Intn(3); k < n; k++ {
